@@ -4,6 +4,6 @@ in lock-step with M1, judged by the oracles of harness/simengine/monitors.py); t
 from ..composite import Composite
 from ..e1 import E1Part, ReusePart
 
-E1 = E1Part("C01", [("mixed",3),("crash",2),("contain",1),("kill",1),("init",1),("leak",1),("break",1),("graceful",1),("timeouts",2),("respawn",2),("callback",2),("cancelshut",1)], ["C01"], ["LokyModel.Props.C01", "LokyModel.Props.C01Live"], quick=1600, thorough=40000, starve=0)
+E1 = E1Part("C01", [("mixed",3),("crash",2),("contain",1),("kill",1),("init",1),("leak",1),("break",1),("graceful",1),("timeouts",2),("respawn",2),("callback",2),("cancelshut",1)], ["C01"], ["LokyModel.Props.C01", "LokyModel.Props.C01Live", "LokyModel.Props.C01Term"], quick=1600, thorough=40000, starve=0)
 REUSE = ReusePart("C01", ["C01", "C03"], [], quick=400, thorough=12000, families=[("reusebig", 2), ("reuse", 1), ("reusecb", 1), ("reusecancel", 1), ("reusecbsub", 1), ("reusebigcrash", 1), ("reuseput", 1)])
 PROP = Composite("C01", [E1, REUSE])
